@@ -772,6 +772,35 @@ func (ex *Exec) ctxAt(st *State, fr *Frame, b *ssa.BasicBlock, idx int) *SpecCtx
 func (ex *Exec) intrinsic(st *State, site *ssa.Call, f *ClosureV, args []Value, k retK) bool {
 	name := shortName(f.Fn.String())
 	switch name {
+	case "(*sync.Once).Do":
+		// once.Do(f): if the flag is clear, run f and set the flag (sync.Once is modelled as its
+		// done flag; concurrent callers are outside the sequential model)
+		if len(args) != 2 {
+			return false
+		}
+		cl, ok := args[1].(*ClosureV)
+		if !ok {
+			return false
+		}
+		ot := site.Common().Args[0].Type()
+		p := ex.ptr(st, args[0], ot, site)
+		done := ex.load(st, p)
+		ex.d.trust("(*sync.Once).Do(f) runs f exactly when the Once has not been used before (sequential model)")
+		if done.S != "true" {
+			st2 := st.clone()
+			st2.assume(not(done))
+			ex.guard(func() {
+				ex.callKnown(st2, site, cl, nil, func(st3 *State, _ []Value) {
+					ex.store(st3, ex.ptr(st3, args[0], ot, nil), tTrue, site)
+					k(st3, nil)
+				})
+			})
+		}
+		if done.S != "false" {
+			st.assume(done)
+			k(st, nil)
+		}
+		return true
 	case "io.WriteString", "fmt.Fprintf", "fmt.Fprint", "fmt.Fprintln":
 		w := ex.term(st, args[0])
 		var s Term
